@@ -51,8 +51,17 @@ C15 ==
   /\ (E.rv.fstatus = "nil" /\ ~E.found) => Report("C15", "comment text lost " \o E.cl)
   /\ (E.rv.fstatus = "nil" /\ E.found /\ E.style # E.wantstyle) => Report("C15", "comment style " \o E.cl)
 
+C08 ==
+  /\ E.ev = "c08"
+  /\ Drift(<<E.tree>>, E.r1, "c08")
+  /\ (E.r1.status # "nil") => Report("C08", "render fails")
+  \* the same File rendered three times, the same Statement rendered three times with one File
+  /\ (E.r1.raw # E.r2.raw \/ E.r2.raw # E.r3.raw \/ E.r1.status # E.r2.status \/ E.r2.status # E.r3.status) => Report("C08", "repeat raw")
+  /\ (E.r1.out # E.r2.out \/ E.r2.out # E.r3.out \/ E.r1.fstatus # E.r2.fstatus \/ E.r2.fstatus # E.r3.fstatus) => Report("C08", "repeat formatted")
+  /\ (E.s1 # E.s2 \/ E.s2 # E.s3) => Report("C08", "repeat statement")
+
 Init == l = 1
-Next == l <= Len(Trace) /\ l' = l + 1 /\ (C13 \/ C16 \/ C15)
+Next == l <= Len(Trace) /\ l' = l + 1 /\ (C13 \/ C16 \/ C15 \/ C08)
 Spec == Init /\ [][Next]_l
 Accepted == TLCGet("stats").diameter - 1 = Len(Trace)
 =============================================================================
